@@ -105,18 +105,22 @@ def corr_universal(ctx, n):
 
 
 def similarity(ctx, n):
-    """MEASURED: translation / rotation / uniform scaling of a pair leave the form factor unchanged (1e-6)."""
+    """MEASURED: translation / rotation / uniform scaling of a pair leave the form factor unchanged (1e-6).
+    Known finding D16: `stokes_integration` drops the contribution of a boundary segment along an axis
+    on which its extent is <= 1e-3 (absolute, per axis): a pair with such an edge before or after the
+    motion changes its form factor (observed up to 5e-4 relative).  Those cases are evaluated and
+    reported under their own signature; everything else must agree to 1e-6."""
     common.import_repo()
     from sparrowpy.form_factor import universal
     worst = ctx.measured.get('similarity_max_rel_dev', 0.0)
+    worst_band = ctx.measured.get('similarity_max_rel_dev_in_cutoff_band', 0.0)
+
+    def in_band(*polys):
+        ext = np.abs(np.concatenate([np.roll(P, -1, 0) - P for P in polys]))
+        return bool(np.any((ext > 1e-9) & (ext < 1.2e-3)))
     for k in range(n):
         kind = ['rect', 'para', 'tri'][k % 3]
         Pi, ni, Pj, nj = geomgen.detached_pair(ctx.rng, kind)
-        ext0 = np.abs(np.concatenate([np.roll(Pi, -1, 0) - Pi, np.roll(Pj, -1, 0) - Pj]))
-        if np.any((ext0 > 1e-6) & (ext0 < 5e-3)):
-            # the untransformed pair itself sits in the per-axis cut-off band (same rule as below)
-            ctx.count('similarity.skipped_cutoff_band_base')
-            continue
         base = universal.universal_form_factor(Pi.copy(), ni.copy(), ffref.area(Pi), Pj.copy(), nj.copy())
         R = geomgen.rand_rotation(ctx.rng)
         t = ctx.rng.uniform(-50, 50, size=3)
@@ -126,19 +130,24 @@ def similarity(ctx, n):
             Pi2, Pj2 = f(Pi), f(Pj)
             ni2 = R @ ni if name == 'rotation' else ni
             nj2 = R @ nj if name == 'rotation' else nj
-            # stay away from the per-axis 1e-3 cut-off band
-            ext = np.abs(np.concatenate([np.roll(Pi2, -1, 0) - Pi2, np.roll(Pj2, -1, 0) - Pj2]))
-            if np.any((ext > 1e-6) & (ext < 5e-3)):
-                ctx.count('similarity.skipped_cutoff_band')
-                continue
+            band = in_band(Pi, Pj, Pi2, Pj2)
             v = universal.universal_form_factor(Pi2.copy(), ni2.copy(), ffref.area(Pi2), Pj2.copy(), nj2.copy())
             ctx.oracle_evals += 1
             dev = abs(v - base) / max(base, 1e-300)
+            if band:
+                ctx.count('similarity.in_cutoff_band')
+                worst_band = max(worst_band, dev)
+                if dev > 1e-6 and not any(vv['signature'] == 'ff-similarity:per-axis-cutoff-band' for vv in ctx.violations):
+                    ctx.violation('ff-similarity:per-axis-cutoff-band' if dev < 5e-2 else 'ff-similarity',
+                                  'form factor changes under %s: %.10g vs %.10g (an edge has an extent <= 1e-3 along a coordinate axis before or after the motion)' % (name, v, base),
+                                  {'Pi': Pi, 'Pj': Pj, 'transform': name}, float(v), float(base))
+                continue
             worst = max(worst, dev)
             if dev > 1e-6:
                 ctx.violation('ff-similarity', 'form factor changes under %s: %.10g vs %.10g' % (name, v, base), {'Pi': Pi, 'Pj': Pj, 'transform': name}, float(v), float(base))
                 return
     ctx.measured['similarity_max_rel_dev'] = worst
+    ctx.measured['similarity_max_rel_dev_in_cutoff_band'] = worst_band
 
 
 def room_laws(ctx):
